@@ -67,6 +67,16 @@ theorem tb_body_ok (cfg : Cfg) (hcw : cfg.cw = cwD) (hfl : cfg.fl.leadingRepeat 
   · exact tb_closed_flatMap _ (fun l => (bodyLineSegs (tb_shaped cfg.cw widths rendered) l).dropLast) _
       (fun a ha => (hline a ha).1)
 
+/-- the ratios of the table's columns come from natural numbers -/
+theorem tb_toTable_ratio_nonneg (cfg : Cfg) (o : TableOpts) (cols : List ColS) :
+    ∀ c ∈ (toTable cfg o cols).columns, 0 ≤ c.ratio.getD 0 := by
+  intro c hc
+  obtain ⟨cs, _, pc, _, rfl⟩ := tb_mem_toTable_columns cfg o cols c hc
+  simp only [toColumn, toColumnC]
+  cases cs.o.ratio with
+  | none => simp
+  | some n => simp only [Option.map_some, Option.getD_some]; exact Int.natCast_nonneg n
+
 /-- **Table.**  Columns free to wrap (no `width`, `min_width`, `no_wrap`; ratio columns allowed, but no `ratio=0` column in a
 table that expands), cells whose measured maximum is never negative, room for the borders and one cell per
 column (and, with an explicit `Table(width=tw)`, `tw` itself within the available width): the table is the title, a body and
@@ -74,7 +84,8 @@ the caption, the body is a sequence of complete lines none wider than the availa
 theorem tableConsole_decomp (cfg : Cfg) (hcw : cfg.cw = cwD) (hfl : cfg.fl.leadingRepeat = false)
     (o : TableOpts) (opts : Opts) (cols : List ColS) (w : Nat)
     (hne : cols ≠ [])
-    (hfree : ∀ c ∈ cols, c.o.wrappable ∧ ((o.expand || o.width.isSome) = false ∨ c.o.ratio ≠ some 0))
+    (hfree : ∀ c ∈ cols, c.o.wrappable ∧ ((cfg.fl.flexNegative = false ∧ cfg.fl.flexClampZero = false) ∨
+      (o.expand || o.width.isSome) = false ∨ c.o.ratio ≠ some 0))
     (hmeas : ∀ c ∈ cols, ∀ ch ∈ c.header :: c.footer :: c.cells, ∀ k : Nat, 0 ≤ (ch.measure k).maximum)
     (hw : tableExtra o cols.length + cols.length ≤ w)
     (hwidth : ∀ tw, o.width = some tw → tw ≤ w ∧ tableExtra o cols.length + cols.length ≤ tw) :
@@ -90,7 +101,6 @@ theorem tableConsole_decomp (cfg : Cfg) (hcw : cfg.cw = cwD) (hfl : cfg.fl.leadi
   have hneT : (toTable cfg o cols).columns ≠ [] := by
     intro h; rw [h] at hlenT; simp at hlenT; omega
   have hfreeT := tb_toTable_allFree cfg o cols (fun c hc => ⟨(hfree c hc).1.1, (hfree c hc).1.2.1⟩) hmeas
-  have hrT := tb_toTable_ratiosPos cfg o cols (fun c hc => (hfree c hc).2)
   have hnwT := tb_toTable_noWrap cfg o cols (fun c hc => (hfree c hc).1.2.2)
   obtain ⟨hex0, hexle⟩ := tb_extraWidth_skel o (toTable cfg o cols).columns cols.length hlenT hn1
   have hexT : ({ o.skel with columns := (toTable cfg o cols).columns } : Table).extraWidth = (toTable cfg o cols).extraWidth := rfl
@@ -105,10 +115,20 @@ theorem tableConsole_decomp (cfg : Cfg) (hcw : cfg.cw = cwD) (hfl : cfg.fl.leadi
       obtain ⟨h1, h2⟩ := hwidth tw hw'
       simp only [Option.map_some, Option.getD_some, Int.ofNat_eq_natCast]
       omega
-  obtain ⟨ws, hws, hsum, hlen, hpos⟩ := width_fits_ratio cfg.fl (toTable cfg o cols)
-    ((toTable cfg o cols).width.getD (w : Int) - (toTable cfg o cols).extraWidth) hrT hfreeT
-    (tb_paddingWidth_nonneg cfg o cols) hneT hnwT
-    (by rw [hlenT]; omega)
+  have hfits : ∃ ws, (toTable cfg o cols).calcWidths cfg.fl
+      ((toTable cfg o cols).width.getD (w : Int) - (toTable cfg o cols).extraWidth) = some ws ∧
+      ws.sum ≤ (toTable cfg o cols).width.getD (w : Int) - (toTable cfg o cols).extraWidth ∧
+      ws.length = (toTable cfg o cols).columns.length ∧ ∀ x ∈ ws, 1 ≤ x := by
+    by_cases hflags : cfg.fl.flexNegative = false ∧ cfg.fl.flexClampZero = false
+    · exact width_fits_any_ratio' cfg.fl hflags.1 hflags.2 (toTable cfg o cols) _ hfreeT
+        (tb_paddingWidth_nonneg cfg o cols) (tb_toTable_ratio_nonneg cfg o cols) hneT hnwT (by rw [hlenT]; omega)
+    · have hrT := tb_toTable_ratiosPos cfg o cols (fun c hc => by
+        rcases (hfree c hc).2 with h | h
+        · exact absurd h hflags
+        · exact h)
+      exact width_fits_ratio cfg.fl (toTable cfg o cols) _ hrT hfreeT
+        (tb_paddingWidth_nonneg cfg o cols) hneT hnwT (by rw [hlenT]; omega)
+  obtain ⟨ws, hws, hsum, hlen, hpos⟩ := hfits
   have hwl : (ws.map Int.toNat).length = cols.length := by rw [List.length_map, hlen, hlenT]
   obtain ⟨hfit, hclosed⟩ := tb_body_ok cfg hcw hfl o cols (ws.map Int.toNat) hwl
   refine ⟨ws.sum + (toTable cfg o cols).extraWidth, _, by omega, tb_tableConsole_eq cfg o opts cols w ws hws, ?_, hclosed⟩
